@@ -15,8 +15,8 @@ which options, in which order, and what the returned namespace holds.
   returned fields             `m k bset uset rbg effmass effmass_percent cb_frq` (`rbs`, `rbe` need the dense kernels
                               and are assembled by `Drivers/C06.lean` from `rbsAssemble`, `nullExpand`, …)
   nq = 0                      empty effective-mass tables and `cb_frq` (fix 54d5d6d)
-  em_filt                     only which rows of the effective-mass table are PRINTED (`emFiltRows`) - but when
-                              `em_filt > 0` leaves NO row the code as it is raises `IndexError` (`CbErr.emFiltEmpty`)
+  em_filt                     only which rows of the effective-mass table are PRINTED (`emFiltRows`); a filter that
+                              leaves no row prints an empty table (fix 2a88ed1, finding F66)
 
 Core Lean only.
 -/
@@ -25,9 +25,6 @@ namespace PyYetiVerif.RigidBody
 inductive CbErr where
   | usetRows
   | notAscending
-  /-- `IndexError` out of `writer.vecwrite` on an EMPTY effective-mass table: `em_filt > 0` and no fixed-base mode above
-  the filter (a defect of the code as it is; reported by the oracle as a finding) -/
-  | emFiltEmpty
   deriving DecidableEq, Repr
 
 structure CbOpts (α : Type) where
@@ -87,15 +84,10 @@ def emFiltRows (nq : Nat) (percent : NMat α) (emFilt : α) : List Nat :=
   if gt emFilt 0 then (List.range nq).filter fun q => (List.range 6).any fun j => gt (percent q j) emFilt
   else List.range nq
 
-/-- the last step: `writer.vecwrite` of the (filtered) effective-mass table (cb.py:3053) raises `IndexError` on an
-empty table - a positive `em_filt` with modal DOF but no mode above it (the code as it is) -/
-def cbFinish (emFilt : α) (out : CbOut α) : Except CbErr (CbOut α) :=
-  if gt emFilt 0 && out.nq != 0 && out.printed.isEmpty then .error .emFiltEmpty else .ok out
-
 /-- `cbcheck(f, Mcb, Kcb, bseto, bref, uset, uref=…, conv=…, em_filt=…, rb_norm=…, reorder=…)`: the preparation and
-every returned field that needs no dense kernel (before the report is written: `cbcheckWith`).  `n` = matrix size, `usetN` = number of uset rows, `u` = x, y, z
+every returned field that needs no dense kernel.  `n` = matrix size, `usetN` = number of uset rows, `u` = x, y, z
 columns of the b-set uset in ascending matrix position, `isCyl`/`isSph` per grid of `u`. -/
-def cbPrepare (memo : Memo α) (n : Nat) (M K : NMat α) (bseto bref0 : List Nat) (usetN : Nat) (u : NMat α)
+def cbcheckWith (memo : Memo α) (n : Nat) (M K : NMat α) (bseto bref0 : List Nat) (usetN : Nat) (u : NMat α)
     (isCyl isSph : Nat → Bool) (uref : URef α) (o : CbOpts α) (twoPi hundred : α) : Except CbErr (CbOut α) :=
   let nb := bseto.length
   if usetN != nb then .error .usetRows else
@@ -136,13 +128,6 @@ def cbPrepare (memo : Memo α) (n : Nat) (M K : NMat α) (bseto bref0 : List Nat
   let frq : Nat → α := fun i => sqrt (abs (k2 (qf i) (qf i))) / twoPi
   .ok { m := m2, k := k2, bset, usetRows, u := u2, uref := urefV, rbg, nq, qset, effmass := em, percent := ep,
         frq, bref, brefB, rbNorm, printed := emFiltRows nq ep o.emFilt }
-
-/-- `cbcheck`: the preparation, then the printing of the effective-mass table -/
-def cbcheckWith (memo : Memo α) (n : Nat) (M K : NMat α) (bseto bref0 : List Nat) (usetN : Nat) (u : NMat α)
-    (isCyl isSph : Nat → Bool) (uref : URef α) (o : CbOpts α) (twoPi hundred : α) : Except CbErr (CbOut α) :=
-  match cbPrepare memo n M K bseto bref0 usetN u isCyl isSph uref o twoPi hundred with
-  | .error e => .error e
-  | .ok out => cbFinish o.emFilt out
 
 /-- the routine itself (`memo` = identity; the `Float` driver passes a tabulating one) -/
 def cbcheckM (n : Nat) (M K : NMat α) (bseto bref0 : List Nat) (usetN : Nat) (u : NMat α)
